@@ -139,14 +139,18 @@ fn sibling_did(net: usize) -> String {
     _ => format!("did:iota:rms:{TAG_ZERO}"),
   }
 }
-/// flavour 0: multibase key; 1: JWK key; 2: multibase key + custom method properties that mention DIDs.
+/// flavour 0: multibase key; 1: JWK key; 2: multibase key + custom method properties that mention DIDs; 3: base58
+/// key; 4: base58 key + the custom properties; 5: JWK key + the custom properties; 6: custom method data (a member no
+/// key format knows) + the custom properties.
 fn method(id_did: &str, frag: &str, controller: &str, flavour: u8, s: &str) -> Value {
   let mut m = match flavour {
-    1 => json!({"id": format!("{id_did}#{frag}"), "controller": controller, "type": "JsonWebKey",
+    1 | 5 => json!({"id": format!("{id_did}#{frag}"), "controller": controller, "type": "JsonWebKey",
                 "publicKeyJwk": {"kty": "OKP", "crv": "Ed25519", "x": "11qYAYKxCrfVS_7TyWQHOg7hcvPapiMlrwIaaPcHURo"}}),
+    3 | 4 => json!({"id": format!("{id_did}#{frag}"), "controller": controller, "type": "Ed25519VerificationKey2018", "publicKeyBase58": "3M5RCDjPTWPkKSN3sxUmmMqHbmRPegYP1tjcKyrDbt9J"}),
+    6 => json!({"id": format!("{id_did}#{frag}"), "controller": controller, "type": "EcdsaSecp256k1RecoveryMethod2020", "blockchainAccountId": "eip155:1:0xab16a96d359ec26a11e2c2b3d8f8b8942d5bfcdb"}),
     _ => json!({"id": format!("{id_did}#{frag}"), "controller": controller, "type": "Ed25519VerificationKey2018", "publicKeyMultibase": "zJdzr2UvC"}),
   };
-  if flavour == 2 {
+  if matches!(flavour, 2 | 4 | 5 | 6) {
     m["owner"] = json!(s);
     m["note"] = json!(format!("{s}#{frag} is controlled by {s}"));
     m["placeholderLike"] = json!([PLACEHOLDER, format!("{PLACEHOLDER}#{frag}"), Q]);
@@ -169,7 +173,7 @@ struct Built {
 /// IOTA DID, a valid DID), `Q` = looks like the placeholder, `X` = did:example, `P` = the placeholder itself (not judged).
 type M = (&'static str, &'static str, u8, &'static str, u8);
 const M1_COMPACT: usize = 11;
-const M1: [M; 25] = [
+const M1: [M; 31] = [
   ("S", "S", 0, "k1", 0),
   ("S", "S", 1, "k1", 0),
   ("S", "S", 2, "k1", 0),
@@ -196,6 +200,12 @@ const M1: [M; 25] = [
   ("X", "S", 0, "k1", 0),
   ("S", "S", 0, "k1", 1),
   ("S", "S", 0, "k1", 2),
+  ("S", "S", 0, "k1", 3),
+  ("S", "S", 0, "k1", 4),
+  ("S", "S", 2, "k1", 4),
+  ("F", "F", 0, "k1", 4),
+  ("S", "S", 0, "k1", 5),
+  ("S", "S", 1, "k1", 6),
 ];
 /// second method (k1 collides with method 1 once the DIDs coincide)
 const M2_COMPACT: usize = 8;
@@ -790,6 +800,11 @@ fn hop(ctx: &Ctx, case: &Case, doc: &IotaDocument, from: &str, to: &str, stage: 
               &format!("controller {} comes back as {}; the documents are not equal", raw_in["doc"]["controller"], got_raw["doc"]["controller"]),
               case,
             ),
+            None if ambiguous_custom_method(&raw_in) => ctx.violation(
+              KEY_CUSTOM_DATA,
+              &format!("the JSON of the two documents is the same; {}", debug_diff(&got, &expect)),
+              case,
+            ),
             other => ctx.violation("pack-unpack|same-did|document-not-equal", &format!("JSON differs at {other:?}; {}", debug_diff(&got, &expect)), case),
           }
           out(&format!("{stage}:{tclass}:differs"));
@@ -804,9 +819,10 @@ fn hop(ctx: &Ctx, case: &Case, doc: &IotaDocument, from: &str, to: &str, stage: 
         if !merged {
           if let Ok(Ok(expect)) = guard(|| IotaDocument::from_json_value(want.clone())) {
             if got != expect {
+              let d = first_diff(&want, &got_raw, &mut Vec::new());
               ctx.violation(
-                "pack-unpack|other-did|document-not-equal-to-the-rewritten-document",
-                &format!("JSON differs at {:?}; {}", first_diff(&want, &got_raw, &mut Vec::new()), debug_diff(&got, &expect)),
+                if d.is_none() && ambiguous_custom_method(&want) { KEY_CUSTOM_DATA } else { "pack-unpack|other-did|document-not-equal-to-the-rewritten-document" },
+                &format!("JSON differs at {d:?}; {}", debug_diff(&got, &expect)),
                 case,
               );
               out(&format!("{stage}:{tclass}:differs"));
@@ -880,6 +896,27 @@ fn doc_body(ctx: &Ctx, ch: &mut Chooser) {
     Ok(Ok(d)) => d,
   };
   shard().distinct.push(Ctx::hash_of(&ch.seq()));
+  // Decoding must reproduce every method: each method object of the tree is the JSON of a method one can build through
+  // the API (MethodBuilder: data + properties); unpack = decode, so if decoding that JSON gives a method that
+  // serialises differently, the API-built document that packs to these bytes cannot come back equal (seed C14-p).
+  if !b.placeholder {
+    if let Ok(Ok(back)) = guard(|| serde_json::to_value(&doc)) {
+      for k in std::iter::once("verificationMethod").chain(RELS) {
+        if let (Some(a), Some(g)) = (b.tree["doc"][k].as_array(), back["doc"][k].as_array()) {
+          for (x, y) in a.iter().zip(g) {
+            if x.is_object() && x != y {
+              ctx.violation(
+                "pack-unpack|method-read-from-its-own-json|serialises-differently",
+                &format!("{k}: the method {x} decodes to a method whose JSON is {y}"),
+                &case,
+              );
+              return out("doc:method-not-reproduced-by-decoding");
+            }
+          }
+        }
+      }
+    }
+  }
   if b.placeholder {
     // outside the property: only "does not panic" is judged
     let target = IotaDID::parse(&b.target).expect("target DID");
@@ -898,6 +935,21 @@ fn doc_body(ctx: &Ctx, ch: &mut Chooser) {
       ctx.sample("documents", &case);
     }
   }
+}
+/// A method without verification material in one of the three known members and with two or more other members: which
+/// of them the library holds as `MethodData::Custom` and which as properties depends on the member ORDER of the JSON
+/// text it was read from (serde hands the flattened enum "the last" entry), so two texts of the same JSON object give
+/// methods that are not equal for `PartialEq` although they serialise to the same JSON.
+const KEY_CUSTOM_DATA: &str = "pack-unpack|custom-method-data-among-several-unknown-members|same-json-unequal-documents";
+fn ambiguous_custom_method(tree: &Value) -> bool {
+  let is_ambiguous = |m: &Value| {
+    m.as_object().is_some_and(|o| {
+      !["publicKeyMultibase", "publicKeyBase58", "publicKeyJwk"].iter().any(|k| o.contains_key(*k))
+        && o.keys().filter(|k| !["id", "controller", "type"].contains(&k.as_str())).count() >= 2
+    })
+  };
+  let doc = &tree["doc"];
+  std::iter::once("verificationMethod").chain(RELS).any(|k| doc[k].as_array().is_some_and(|a| a.iter().any(|m| is_ambiguous(m))))
 }
 /// Where two documents whose JSON agrees differ for `PartialEq` (from their `Debug` forms).
 fn debug_diff(a: &IotaDocument, b: &IotaDocument) -> String {
